@@ -51,6 +51,13 @@ var standInPartial = map[string]partialStandIn{
 	"cmpp.MsgIDString2Uint64": {"MSGID", []string{"C17"}, "inverse law assumed of fmt.Sscanf, hypothesis of lemma msgid_string_roundtrip"},
 }
 
+// standInOfProperty: bounded stand-ins that belong to a property as a whole rather than to one trusted function.
+var standInOfProperty = map[string][]partialStandIn{
+	// octet slices carry no capacity in the model, so that the parts of a splitter's [][]byte result do not overlap in
+	// memory (up to their capacities) is not a clause there (seeded change s16_C12 showed the gap)
+	"C12": {{"SPLITOWN", []string{"C12"}, "EncodeCMPPContentAndSplit / EncodeSMPPContentAndSplit (the parts of the [][]byte result own disjoint memory up to their capacities: not expressible in the model, bounded check only)"}},
+}
+
 var validatorFailRe = regexp.MustCompile(`VALIDATOR-FAIL (.*)`)
 
 // runStandIns runs the named validators in quick or full mode; returns the evidence rows and the failure lines.
